@@ -13,7 +13,7 @@ from hexital import Hexital
 
 from .. import planlib, world
 from ..catalogue import build, mk_candles, sample_members, sample_spec, spec_label
-from ..core import Discard, LibError, Violation, run_property
+from ..core import Discard, LibError, Violation, filled_size, run_property
 from ..relational import norm_key
 from ..util import candle_full, diff_field, sub_rng, tf_seconds
 
@@ -109,6 +109,7 @@ def _execute(trace):
     def body(run):
         cfg = trace["config"]
         label = _label(cfg)
+        tfs = [m["common"].get("timeframe") for m in cfg["members"]]
         delivered = []
         subject = view = None
         ledger = {}   # manager name -> list of candle_full
@@ -133,8 +134,8 @@ def _execute(trace):
                 if kind == "new":
                     rows = op.get("preload") or []
                     delivered.extend(rows)
-                    subject, view = run.call(len(rows), _build, cfg, rows)
-                    run.call(len(rows) * 4, subject.calculate)
+                    subject, view = run.call(filled_size(rows, tfs) * 2, _build, cfg, rows)
+                    run.call(filled_size(rows, tfs) * 4, subject.calculate)
                 elif subject is None:
                     continue
                 elif kind == "append":
@@ -142,7 +143,7 @@ def _execute(trace):
                     if rows and delivered and rows[0][0] < delivered[-1][0]:
                         continue
                     delivered.extend(rows)
-                    run.call(len(delivered) * 4, subject.append, mk_candles(rows))
+                    run.call(filled_size(delivered, tfs) * 4, subject.append, mk_candles(rows))
                 elif kind != "check":
                     continue
             except LibError as e:
